@@ -68,14 +68,14 @@ def main():
         shutil.copy(os.path.join(VERIF, "sim", "Cargo.lock"), sim)
         toml = open(os.path.join(VERIF, "sim", "Cargo.toml.in")).read().replace("@REPO@", wt)
         open(os.path.join(sim, "Cargo.toml"), "w").write(toml)
-        env = dict(ENV, RUSTFLAGS="--cfg ureq_proto_verif -Awarnings", CARGO_TARGET_DIR="/tmp/hootmut-target")
+        env = dict(ENV, RUSTFLAGS="--cfg ureq_proto_verif -Awarnings", CARGO_TARGET_DIR=os.environ.get("HOOTMUT_TARGET", "/tmp/hootmut-target"))
         t0 = time.time()
         rc, out = sh("cargo build --release --offline -q", cwd=sim, env=env)
         res["build_s"] = round(time.time() - t0, 1)
         if rc != 0:
             res["error"] = "hootsim build failed: " + out[-400:]
             return res
-        binp = "/tmp/hootmut-target/release/hootsim"
+        binp = os.environ.get("HOOTMUT_TARGET", "/tmp/hootmut-target") + "/release/hootsim"
         outdir = os.path.join(work, "out")
         os.makedirs(outdir)
         env2 = dict(ENV, VERIF_DIR=VERIF, VERIF_OUT=outdir)
